@@ -373,8 +373,17 @@ class ArrayReductionBaseTrans(Transformation, ABC):
         rhs = self._init_var(lhs)
         assignment = Assignment.create(lhs, rhs)
         outer_loop.parent.children.insert(outer_loop.position, assignment)
-        if not (isinstance(orig_rhs, IntrinsicCall) and
+        if (isinstance(orig_rhs, IntrinsicCall) and
                 orig_rhs.intrinsic is self._INTRINSIC_TYPE):
+            if increment:
+                # The intrinsic call is the only thing on the rhs but its
+                # arguments read the lhs variable, so the result has been
+                # computed in a temporary and must be copied to the lhs.
+                assignment = Assignment.create(orig_lhs.copy(),
+                                               new_lhs.copy())
+                outer_loop.parent.children.insert(
+                    outer_loop.position+1, assignment)
+        else:
             # The intrinsic call is not the only thing on the rhs of
             # the expression, so we need to deal with the additional
             # computation.
